@@ -960,6 +960,7 @@ func (x *Exec) forStmt(n *ast.ForStmt, label string, st *State, fr *frame, k fun
 		st.tag(fmt.Sprintf("loop%d", ord))
 		entry := st.clone()
 		entry.tag("entry")
+		x.rememberEntry(st, ord, entry)
 		if lc != nil {
 			x.useClauses(lc.UseEntry, x.specEnvAt(entry, pos), entry)
 		}
@@ -1020,6 +1021,19 @@ func (x *Exec) forStmt(n *ast.ForStmt, label string, st *State, fr *frame, k fun
 		x.stmt(n.Body, body, inner, endIter)
 		k(exit)
 	})
+}
+
+// rememberEntry keeps the state in which loop ord was reached (on this path) as a named snapshot: entry(N, e) in
+// invariants of the loop and of the loops nested in it.
+func (x *Exec) rememberEntry(st *State, ord int, entry *State) {
+	if st.snaps == nil {
+		st.snaps = map[string]*State{}
+	}
+	st.snaps[fmt.Sprintf("loop-entry-%d", ord)] = entry
+	if entry.snaps == nil {
+		entry.snaps = map[string]*State{}
+	}
+	entry.snaps[fmt.Sprintf("loop-entry-%d", ord)] = entry
 }
 
 func (x *Exec) unrollFor(n *ast.ForStmt, label string, lc *LoopContract, ord int, st *State, fr *frame, k func(*State), depth int) {
@@ -1231,6 +1245,7 @@ func (x *Exec) rangeStmt(n *ast.RangeStmt, label string, st *State, fr *frame, k
 	}
 	entry := st.clone()
 	entry.tag("entry")
+	x.rememberEntry(st, ord, entry)
 	if lc != nil {
 		e2 := entry.clone()
 		x.bindRangeIndex(n, e2, zero)
@@ -1300,8 +1315,9 @@ func (x *Exec) rangeStmt(n *ast.RangeStmt, label string, st *State, fr *frame, k
 			s.vars[mapRange.vvar] = Term{S: app("store", v.S, mapRange.cur.S, "true"), Sort: v.Sort}
 		}
 		if lc != nil {
-			// step clauses: proved at the end of the iteration (the range index still names this iteration), then assumed
-			env := x.specEnvAt(s, pos)
+			// step clauses: proved at the end of the iteration (the range index still names this iteration), then assumed;
+			// they see the variables declared at the top level of the loop body
+			env := x.specEnvAt(s, n.Body.Rbrace)
 			env.head = headSnap
 			for _, c := range lc.Steps {
 				if f, ok := x.clause(c, env); ok {
